@@ -299,3 +299,10 @@ Print Assumptions C19_source_tie.
 Theorem C19_source_atoms : C19_source_atoms_statement.
 Proof. exact C19_source_atoms_proof. Qed.
 Print Assumptions C19_source_atoms.
+
+(** The decision-critical functions of the anchored code have exactly the decisions the source tie knows about
+    (go2coq manifests, regenerated from /repo on every check; statement in SourceManifest.v). *)
+From Kardia Require Import C19.SourceManifest.
+Theorem C19_source_manifest : C19_source_manifest_statement.
+Proof. exact C19_source_manifest_proof. Qed.
+Print Assumptions C19_source_manifest.
